@@ -26,9 +26,25 @@ NPROC = int(os.environ.get("VERIF_NPROC", "16"))
 MAX_SAMPLES = 10
 
 
+def srepr(obj, limit=600):
+    """repr that survives integers beyond the interpreter's decimal conversion limit"""
+    try:
+        r = repr(obj)
+    except ValueError:
+        if isinstance(obj, int):
+            r = hex(obj)
+        elif isinstance(obj, (tuple, list)):
+            r = "(" + ", ".join(srepr(v, limit) for v in obj) + ")"
+        elif isinstance(obj, dict):
+            r = "{" + ", ".join("%s: %s" % (srepr(k), srepr(v, limit)) for k, v in obj.items()) + "}"
+        else:
+            r = "<%s>" % type(obj).__name__
+    return r if len(r) <= limit else r[:limit] + "..."
+
+
 def hash64(obj) -> int:
     return int.from_bytes(
-        hashlib.blake2b(repr(obj).encode(), digest_size=8).digest(), "big"
+        hashlib.blake2b(srepr(obj, 1 << 30).encode(), digest_size=8).digest(), "big"
     )
 
 
